@@ -198,7 +198,7 @@ def frag_held_late(p, rng):
 def frag_batch(p, q, rng):
     """`open_substream_batch` / `try_…`: one command for several peers (one already open, one unknown, duplicates)."""
     op = rng.choice(["openb", "tryopenb"])
-    lst = rng.choice([f"{p},{q}", f"{q},{p},{p}", f"{p},{q},9", f"{p},{q}"])
+    lst = rng.choice([f"{p},{q}", f"{q},{p},{p}", f"{p},{q},9", f"{p},{q}", f"7,{p},8,{q},9", f"9,8,{p},7,{q},6"])
     rest = rng.choice([
         [f"subout {p}", f"subout {q}", f"hs {p} out", f"hs {q} out", f"subin {p}", f"subin {q}", f"hs {p} in", f"hs {q} in",
          "events", f"accept {p}", f"accept {q}", "events"],
@@ -277,7 +277,16 @@ def frag_pileup(p, rng):
     """The protocol loop does not run for a while: several results of the handshake service / several inputs at once.
     Includes the history of the repaired defect (a result queued for a substream that is removed before it is
     handed out must not be attributed to the peer's next substream)."""
-    v = rng.randrange(4)
+    v = rng.randrange(7)
+    if v >= 4:
+        # the connection task's close notice and the user's next open request are both waiting when the protocol loop
+        # runs again: the notice is taken first (order of the biased select!), so the request finds the peer `Closed`
+        end = rng.choice([f"rclose {p} in", f"rreset {p} out", f"rclose {p} out", f"rreset {p} in"])
+        extra = [f"send {p} 0{p}"] if end == f"rclose {p} out" else []
+        tail = rng.choice([[f"subout {p}", f"hs {p} out", f"subin {p}", f"hs {p} in", "events", f"accept {p}", "events", "state"],
+                           ["events", f"disc {p}", "events", f"conn {p}"], [f"subfail {p}", "events", "state"]])
+        return (rng.choice([frag_in, frag_out])(p) + ["phold", end] + extra + ["events", f"open {p}", "prelease", "events",
+                "state"] + tail)
     if v == 0:
         a, b = rng.choice([("in", "out"), ("out", "in")])
         return [f"open {p}", f"subin {p}", f"subout {p}", "phold", f"hs {p} {a}", f"rreset {p} {b}", "prelease", "state",
@@ -554,6 +563,8 @@ def oracle(case, out):
                                 # its NotificationStreamClosed is late (finding late-closed-report)
     burst = False               # the protocol loop has just worked through a backlog (`phold … prelease`): meanwhile no
                                 # connection task was polled, i.e. every task was held back for the length of the burst
+    held_qual = {}              # peer -> step of an open request sent while the protocol loop is held that must be answered
+                                # once it runs (nothing else was fed to the protocol for that peer during the hold)
     held_touch = set()          # peers for which a negotiation may have been started while the protocol loop was held
     held_reqs = []              # peers of the open requests the handle has sent while the adapter holds the commands back
     cmd_held = proto_held = False   # the adapter keeps user commands from the protocol / does not poll the protocol loop
@@ -603,6 +614,7 @@ def oracle(case, out):
         op, o = case[i], out[i]
         t = op.split()
         late_closed_now = set()
+        was_touched = False
         if not t:
             continue
         peer = int(t[1]) if len(t) > 1 and t[1].isdigit() else None
@@ -640,6 +652,13 @@ def oracle(case, out):
                 last_terminal[hp] = False
                 quiet[hp] = False
             held_touch = set()
+            for hp, i0 in held_qual.items():
+                if hp not in qualifying:
+                    qualifying[hp] = (i0, re.search(r"\bopen\(%d," % hp, o) is not None or hp in nodrain)
+            held_qual = {}
+        elif proto_held and peer is not None and t[0] not in ("open", "events", "state"):
+            # anything else fed for that peer during the hold may legitimately be handled before the request
+            held_qual.pop(peer, None)
         if t[0] == "shutdown":
             if not o.startswith("exited"):
                 v("protocol-did-not-exit", f"the user dropped the handle but NotificationProtocol::run() did not return: {o}", i)
@@ -691,6 +710,7 @@ def oracle(case, out):
             # ops that can start a negotiation round; an event drained later may predate them
             subin_since_events.add(peer)
             last_terminal[peer] = False
+            was_touched = peer in held_touch
             if proto_held:
                 held_touch.add(peer)
         for m in STALLED.finditer(o):
@@ -743,6 +763,11 @@ def oracle(case, out):
                 quiet[rp] = False
                 continue
             open_ok_steps.setdefault(rp, []).append(i)
+            if (proto_held and not cmd_held and rp in connected and quiet.get(rp) and not view_open.get(rp)
+                    and rp not in qualifying and rp not in pending_req_kind and not was_touched and t[0] == "open"):
+                # the loop is not running, but everything it has queued for this peer (a close notice at most) is taken
+                # before the command
+                held_qual[rp] = i
             if (rp in connected and quiet.get(rp) and not view_open.get(rp) and rp not in qualifying
                     and rp not in pending_req_kind and not cmd_held and not proto_held):
                 # connected, nothing in progress as far as anybody can know: the request must be answered
